@@ -39,6 +39,7 @@ class LawfulScalar (K : Type) [Field K] [LinearOrder K] [IsStrictOrderedRing K] 
   fin_eq : ∀ a : K, Scalar.fin a = true
   finQuot_eq : ∀ d r : K, Scalar.finQuot d r = decide (d ≠ 0)
   isNan_eq : ∀ a : K, Scalar.isNan a = false
+  fma_eq : ∀ a b c : K, Scalar.fma a b c = a * b + c
 
 variable {K : Type} [Field K] [LinearOrder K] [IsStrictOrderedRing K] [FloorRing K] [Scalar K] [LawfulScalar K]
 
@@ -77,8 +78,8 @@ open LawfulScalar
 @[scalar_norm] theorem sn_isNan (a : K) : Scalar.isNan a = false := isNan_eq a
 @[scalar_norm] theorem sn_srecip (a : K) : srecip a = 1 / a := by
   unfold srecip; rw [sn_div, sn_ofNat]; simp
-@[scalar_norm] theorem sn_smulAdd (a b c : K) : smulAdd a b c = a * b + c := by
-  unfold smulAdd; rw [sn_add, sn_mul]
+@[scalar_norm] theorem sn_fma (a b c : K) : Scalar.fma a b c = a * b + c := fma_eq a b c
+@[scalar_norm] theorem sn_smulAdd (a b c : K) : smulAdd a b c = a * b + c := fma_eq a b c
 @[scalar_norm] theorem sn_sgt (a b : K) : sgt a b = decide (b < a) := by unfold sgt; rw [sn_lt]
 @[scalar_norm] theorem sn_sge (a b : K) : sge a b = decide (b ≤ a) := by unfold sge; rw [sn_le]
 @[scalar_norm] theorem sn_spowi (a : K) (n : Nat) : spowi a n = a ^ n := by
@@ -155,4 +156,5 @@ instance : LawfulScalar Rat where
   fin_eq _ := rfl
   finQuot_eq _ _ := rfl
   isNan_eq _ := rfl
+  fma_eq _ _ _ := rfl
 end Kurbo
